@@ -87,11 +87,21 @@ impl<M> WeakSender<M> {
     pub fn try_send(&self, msg: M, Tracked(w): Tracked<&mut World>) -> (r: Result<(), ActorError>) ensures one_enq(old(w), final(w), self.chan(), false, r is Ok) { unimplemented!() }
 }
 impl<M> OwnView for Sender<M> { open spec fn own(&self) -> Own { Own { none: false, chan: self.chan(), s_tx: true, s_force: true, w_tx: false, w_force: false, mixed: false } } }
-impl<M> WeakSender<M> { #[verifier::external_body] pub fn upgrade(&self) -> (r: Option<Sender<M>>) ensures r is Some ==> r->0.chan() == self.chan() && r->0.cid() == self.cid() { unimplemented!() } }
+impl<M> WeakSender<M> {
+    // an explicit upgrade puts a STRONG Sender into the hands of the caller: recorded, so that a timer body that holds one across its
+    // sleep (and thereby keeps its own actor alive for a period) breaks the timer pattern
+    #[verifier::external_body]
+    pub fn upgrade_sender(&self, Tracked(w): Tracked<&mut World>) -> (r: Option<Sender<M>>)
+        ensures r is Some ==> r->0.chan() == self.chan() && r->0.cid() == self.cid(),
+                r is Some ==> emits(old(w), final(w), Ev::Upgraded { chan: self.chan() }), r is None ==> same_world(old(w), final(w))
+    { unimplemented!() }
+}
 impl<M> Sender<M> {
     pub uninterp spec fn chan(&self) -> int; pub uninterp spec fn cid(&self) -> int;
     #[verifier::external_body]
     pub fn force_send(&self, msg: M, Tracked(w): Tracked<&mut World>) -> (r: Result<(), ActorError>) ensures one_enq(old(w), final(w), self.chan(), true, r is Ok) { unimplemented!() }
+    #[verifier::external_body]
+    pub fn send(&self, msg: M, Tracked(w): Tracked<&mut World>) -> (r: Result<(), ActorError>) ensures one_enq(old(w), final(w), self.chan(), false, r is Ok) { unimplemented!() }
 }
 impl<M> AnyValued for Sender<M> { open spec fn any_val(&self) -> AnyVal { AnyVal { tid: type_id::<Sender<M>>(), slot: self.chan(), cid: self.cid() } } }
 // user values handed to timers: `message.clone()`, `message_fn()`, `task.await`
